@@ -175,7 +175,19 @@ def _flight_ivc(om, vals):
     return ivc
 
 
-def _setup(prob, spec):
+def _setup(prob, spec, driver=None):
+    if spec.get("driver") and driver:
+        import openmdao.api as om
+
+        prob.driver = om.ScipyOptimizeDriver()
+        prob.driver.options["optimizer"] = "SLSQP"
+        prob.driver.options["tol"] = 1e-9
+        prob.driver.options["disp"] = False
+        for name, lo, hi, scaler in driver["dvs"]:
+            prob.model.add_design_var(name, lower=lo, upper=hi, scaler=scaler)
+        for name, kind, val in driver["cons"]:
+            prob.model.add_constraint(name, **{kind: val})
+        prob.model.add_objective(driver["obj"][0], scaler=driver["obj"][1])
     prob.setup(mode=spec.get("mode", "auto"), force_alloc_complex=bool(spec.get("force_alloc_complex", True)))
     prob.set_solver_print(-1)
 
@@ -185,7 +197,7 @@ def _setup(prob, spec):
 # ------------------------------------------------------------------------------------------------
 
 
-def _aero_problem(spec, surfaces, flight, geom=True, rotational=False, compressible=False, extra_ivc=None):
+def _aero_problem(spec, surfaces, flight, geom=True, rotational=False, compressible=False, extra_ivc=None, driver=None):
     import openmdao.api as om
     from openaerostruct.geometry.geometry_group import Geometry
     from openaerostruct.aerodynamics.aero_groups import AeroPoint
@@ -208,7 +220,7 @@ def _aero_problem(spec, surfaces, flight, geom=True, rotational=False, compressi
         prob.model.connect(n + ".mesh", pn + ".aero_states." + n + "_def_mesh")
         if "t_over_c_cp" in s:
             prob.model.connect(n + ".t_over_c", pn + "." + n + "_perf.t_over_c")
-    _setup(prob, spec)
+    _setup(prob, spec, driver)
     return prob, pn
 
 
@@ -258,7 +270,13 @@ def z1(spec):
         span=span,
         t_over_c_cp=np.array([0.12, 0.14]),
     )
-    prob, pn = _aero_problem(spec, [s], FLIGHT_CRUISE)
+    pn = "aero_point_0"
+    driver = dict(
+        dvs=[("wing.twist_cp", -10, 15, 1.0), ("wing.chord_cp", 0.5, 1.5, 1.0), ("alpha", -5, 10, 1.0)],
+        cons=[(pn + ".wing_perf.CL", "equals", 0.5)],
+        obj=(pn + ".wing_perf.CD", 1e4),
+    )
+    prob, pn = _aero_problem(spec, [s], FLIGHT_CRUISE, driver=driver)
     inputs = _flight_inputs() + [
         Inp("wing.twist_cp", twist_cp, "abs", -2.0, 2.0),
         Inp("wing.chord_cp", np.ones(2), "uni", 0.8, 1.2, special=[1.0]),
@@ -273,11 +291,6 @@ def z1(spec):
     ]
     of = [pn + ".CL", pn + ".CD", pn + ".CM", pn + ".total_perf.moment.M", pn + ".wing_perf.CDw", pn + ".wing_perf.CDv"]
     wrt = [i.name for i in inputs]
-    driver = dict(
-        dvs=[("wing.twist_cp", -10, 15, 1.0), ("wing.chord_cp", 0.5, 1.5, 1.0), ("alpha", -5, 10, 1.0)],
-        cons=[(pn + ".wing_perf.CL", "equals", 0.5)],
-        obj=(pn + ".wing_perf.CD", 1e4),
-    )
     return Model(spec, prob, inputs, of, wrt, [s, md], driver=driver)
 
 
@@ -466,7 +479,12 @@ def z6(spec):
     prob.model.connect("loads", "wing.loads")
     if s["struct_weight_relief"]:
         prob.model.connect("load_factor", "wing.load_factor")
-    _setup(prob, spec)
+    driver = dict(
+        dvs=[("wing.thickness_cp", 0.01, 0.5, 1e2)],
+        cons=[("wing.failure", "upper", 0.0), ("wing.thickness_intersects", "upper", 0.0)],
+        obj=("wing.structural_mass", 1e-4),
+    )
+    _setup(prob, spec, driver)
     inputs = [
         Inp("loads", _loads(nyh), "rel", -0.5, 0.5),
     ] + ([Inp("load_factor", 1.0, "uni", 0.5, 2.5, special=[1.0])] if s["struct_weight_relief"] else []) + [
@@ -474,11 +492,6 @@ def z6(spec):
         Inp("wing.geometry.t_over_c_cp", np.array([0.15]), "rel", -0.2, 0.2),
     ]
     of = ["wing.failure", "wing.structural_mass", "wing.vonmises", "wing.disp", "wing.thickness_intersects"]
-    driver = dict(
-        dvs=[("wing.thickness_cp", 0.01, 0.5, 1e2)],
-        cons=[("wing.failure", "upper", 0.0), ("wing.thickness_intersects", "upper", 0.0)],
-        obj=("wing.structural_mass", 1e-4),
-    )
     return Model(spec, prob, inputs, of, [i.name for i in inputs], [s, md], driver=driver)
 
 
@@ -525,7 +538,7 @@ def z7(spec):
 
 
 def _as_problem(spec, surfaces, flight, n_points=1, compressible=False, rotational=False, per_point=None,
-                fuel_vol=False, point_mass_vals=None, ground=False):
+                fuel_vol=False, point_mass_vals=None, ground=False, driver=None):
     """Assemble AerostructGeometry per surface + n AerostructPoint groups, wired as the docs do."""
     import openmdao.api as om
     from openaerostruct.integration.aerostruct_groups import AerostructGeometry, AerostructPoint
@@ -608,7 +621,7 @@ def _as_problem(spec, surfaces, flight, n_points=1, compressible=False, rotation
         comp = om.ExecComp("fuel_diff = (fuel_mass - fuelburn) / fuelburn", units="kg")
         prob.model.add_subsystem("fuel_diff", comp, promotes_inputs=["fuel_mass"], promotes_outputs=["fuel_diff"])
         prob.model.connect("AS_point_0.fuelburn", "fuel_diff.fuelburn")
-    _setup(prob, spec)
+    _setup(prob, spec, driver)
     return prob, coupled_paths
 
 
@@ -685,7 +698,14 @@ def z8(spec):
         s["E"] *= spec["stiff"]
         s["G"] *= spec["stiff"]
     flight = _as_flight()
-    prob, coupled = _as_problem(spec, [s], flight)
+    pn = "AS_point_0"
+    driver = dict(
+        dvs=[("wing.twist_cp", -10, 15, 1.0), ("wing.thickness_cp", 0.01, 0.5, 1e2), ("alpha", -10, 10, 1.0)],
+        cons=[(pn + ".wing_perf.failure", "upper", 0.0), (pn + ".wing_perf.thickness_intersects", "upper", 0.0),
+              (pn + ".L_equals_W", "equals", 0.0)],
+        obj=(pn + ".fuelburn", 1e-5),
+    )
+    prob, coupled = _as_problem(spec, [s], flight, driver=driver)
     inputs = _as_inputs(flight, mach=(0.7, 0.86)) + [
         Inp("load_factor", 1.0, "uni", 0.8, 2.5, special=[1.0]),
         Inp("wing.twist_cp", twist_cp, "abs", -2.0, 2.0),
@@ -695,12 +715,6 @@ def z8(spec):
     pn = "AS_point_0"
     of = [pn + ".fuelburn", pn + ".L_equals_W", pn + ".wing_perf.failure", pn + ".CM", pn + ".total_perf.moment.M",
           pn + ".CL", pn + ".CD", pn + ".wing_perf.thickness_intersects", "wing.structural_mass"]
-    driver = dict(
-        dvs=[("wing.twist_cp", -10, 15, 1.0), ("wing.thickness_cp", 0.01, 0.5, 1e2), ("alpha", -10, 10, 1.0)],
-        cons=[(pn + ".wing_perf.failure", "upper", 0.0), (pn + ".wing_perf.thickness_intersects", "upper", 0.0),
-              (pn + ".L_equals_W", "equals", 0.0)],
-        obj=(pn + ".fuelburn", 1e-5),
-    )
     return Model(spec, prob, inputs, of, [i.name for i in inputs], [s, md], coupled=coupled, driver=driver)
 
 
@@ -958,8 +972,27 @@ def z0(spec):
             self.add_output("b", np.ones(3))
             self.declare_partials("b", "a", method="cs")
 
+            self.set_check_partial_options("*", method="fd")
+
         def compute(self, inputs, outputs):
             outputs["b"] = np.sin(inputs["a"]) * inputs["a"] ** 2
+
+    class Mixed(om.ExplicitComponent):
+        """cs-approximated partial for one input, analytic for the other (as RotateToWindFrame)."""
+
+        def setup(self):
+            self.add_input("g", 1.0)
+            self.add_input("b", np.ones(3))
+            self.add_output("c", np.ones(3))
+            self.declare_partials("c", "g", method="cs")
+            self.declare_partials("c", "b", rows=np.arange(3), cols=np.arange(3))
+            self.set_check_partial_options("g", method="fd")
+
+        def compute(self, inputs, outputs):
+            outputs["c"] = np.sin(inputs["g"]) * inputs["b"]
+
+        def compute_partials(self, inputs, J):
+            J["c", "b"] = np.sin(inputs["g"]) * np.ones(3)
 
     prob = om.Problem(reports=False)
     m = prob.model
@@ -973,9 +1006,12 @@ def z0(spec):
     m.add_subsystem("c1", ConstJac(), promotes=["*"])
     m.add_subsystem("c2", CSComp())
     m.connect("y", "c2.a")
+    m.add_subsystem("c3", Mixed())
+    m.connect("c2.b", "c3.b")
+    m.connect("q", "c3.g")
     m.add_subsystem("lin", om.LinearSystemComp(size=3))
     m.connect("A", "lin.A")
-    m.connect("c2.b", "lin.b")
+    m.connect("c3.c", "lin.b")
     cyc = m.add_subsystem("cyc", om.Group())
     cyc.add_subsystem("d1", om.ExecComp("u = 0.3*w + s", u=np.ones(3), w=np.ones(3), s=np.ones(3), has_diag_partials=True), promotes=["*"])
     cyc.add_subsystem("d2", om.ExecComp("w = 0.5*cos(u) + 0.1*u", u=np.ones(3), w=np.ones(3), has_diag_partials=True), promotes=["*"])
